@@ -59,6 +59,7 @@ type Service struct {
 
 	templateSets   map[string]*pongo2.TemplateSet
 	templateSetsMu sync.Mutex
+	runCounterMu   sync.Mutex
 }
 
 func NewService(uri string) (svc *Service, err error) {
@@ -73,7 +74,9 @@ func (s *Service) NewRunNumber() (runNumber uint32, err error) {
 	if cSrc, ok := s.src.(*cfgbackend.ConsulSource); ok {
 		return cSrc.GetNextUInt32(filepath.Join(getConsulRuntimePrefix(), "run_number"))
 	} else {
-		// Unsafe check-and-set, only for file backend
+		// Check-and-set serialised within this process only (no file lock), only for file backend
+		s.runCounterMu.Lock()
+		defer s.runCounterMu.Unlock()
 		var rnf string
 		rnf = filepath.Join(viper.GetString("coreWorkingDir"), "runcounter.txt")
 		if _, err = os.Stat(rnf); os.IsNotExist(err) {
